@@ -40,7 +40,9 @@ fn pick_mode(rng: &mut Rng, l: f64) -> Mode {
             1 => rng.int(3, 12) as usize,
             _ => rng.int(12, 500) as usize,
         }),
-        1 => Mode::Spacing(match rng.below(4) {
+        1 => Mode::Spacing(match rng.below(5) {
+            // a curve between one and two spacings long: exactly two samples fit
+            4 => l / rng.range(1.05, 1.95),
             // the curve length is a whole number of spacings (exactly, or up to rounding of l / k and of
             // the accumulated positions): the leftover to be split between the two margins is zero or
             // one full spacing, the boundary of "centred with margins smaller than one spacing"
@@ -126,6 +128,9 @@ fn resample2(rng: &mut Rng) {
         mode = match mode {
             Mode::Count(n) => Mode::Count(n.max(3)),
             Mode::MaxSpacing(m) => Mode::MaxSpacing(m.min(l / 2.01)),
+            // (two samples centred on a ring that runs out and back along the same path fall on ONE point; found by
+            // the thorough tier)
+            Mode::Spacing(sp) if l / sp < 2.0 => Mode::Spacing(l / 2.5),
             m => m,
         };
     }
@@ -300,6 +305,9 @@ fn resample3(rng: &mut Rng) {
         mode = match mode {
             Mode::Count(n) => Mode::Count(n.max(3)),
             Mode::MaxSpacing(m) => Mode::MaxSpacing(m.min(l / 2.01)),
+            // (two samples centred on a ring that runs out and back along the same path fall on ONE point; found by
+            // the thorough tier)
+            Mode::Spacing(sp) if l / sp < 2.0 => Mode::Spacing(l / 2.5),
             m => m,
         };
     }
